@@ -5,6 +5,8 @@ use radix_common::math::*;
 use radix_engine::blueprints::consensus_manager::*;
 use radix_engine::blueprints::pool::v1::v1_1::*;
 use radix_engine::errors::RuntimeError;
+use radix_common::types::{NodeId, PartitionNumber, SubstateKey};
+use radix_engine::kernel::substate_locks::SubstateLocks;
 use std::io::BufRead;
 use std::str::FromStr;
 
@@ -21,8 +23,64 @@ fn rd(r: Result<Decimal, RuntimeError>) -> String {
     }
 }
 
+fn node(n: &str) -> NodeId {
+    let mut b = [0u8; NodeId::LENGTH];
+    b[NodeId::LENGTH - 1] = n.parse().unwrap();
+    NodeId(b)
+}
+
+/// `locks_run` script: tokens separated by spaces, executed on a fresh SubstateLocks<()>:
+///   L <node> <part> <key> <ro>   lock            -> prints `h<id>` or `none`
+///   U <handle>                   unlock          -> prints `ok`
+///   N <node>                     node_is_locked  -> prints `1` / `0`
+///   K <node> <part> <key>        is_locked       -> prints `1` / `0`
+fn locks_run(a: &[&str]) -> String {
+    let mut locks: SubstateLocks<()> = SubstateLocks::new();
+    let mut out: Vec<String> = vec![];
+    let mut i = 0;
+    while i < a.len() {
+        match a[i] {
+            "L" => {
+                let r = locks.lock(
+                    &node(a[i + 1]),
+                    PartitionNumber(a[i + 2].parse().unwrap()),
+                    &SubstateKey::Field(a[i + 3].parse().unwrap()),
+                    a[i + 4] == "1",
+                    (),
+                );
+                out.push(match r {
+                    Some(h) => format!("h{}", h),
+                    None => "none".to_string(),
+                });
+                i += 5;
+            }
+            "U" => {
+                locks.unlock(a[i + 1].parse().unwrap());
+                out.push("ok".to_string());
+                i += 2;
+            }
+            "N" => {
+                out.push(if locks.node_is_locked(&node(a[i + 1])) { "1" } else { "0" }.to_string());
+                i += 2;
+            }
+            "K" => {
+                let r = locks.is_locked(
+                    &node(a[i + 1]),
+                    PartitionNumber(a[i + 2].parse().unwrap()),
+                    &SubstateKey::Field(a[i + 3].parse().unwrap()),
+                );
+                out.push(if r { "1" } else { "0" }.to_string());
+                i += 4;
+            }
+            _ => return "bad-script".to_string(),
+        }
+    }
+    format!("val {}", out.join(" "))
+}
+
 fn run(a: &[&str]) -> String {
     match a[0] {
+        "locks_run" => locks_run(&a[1..]),
         "pool1_owed" => rd(verif_one_resource_pool_calculate_amount_owed(
             dec(a[1]),
             dec(a[2]),
